@@ -328,11 +328,10 @@ func (m *evalModel) schemaSources(c *Ctx, v ssa.Value) []string {
 	seen := map[ssa.Value]bool{}
 	var walk func(v ssa.Value)
 	fieldOf := func(base types.Type, idx int) string {
-		o := c.ownerName(base)
-		if o == "" {
-			o = "struct"
+		if c.ownerName(base) == "" {
+			return "struct." + core.CanonFieldOf(base, idx)
 		}
-		return o + "." + core.CanonFieldOf(base, idx)
+		return c.fieldName(base, idx)
 	}
 	walk = func(v ssa.Value) {
 		if v == nil || seen[v] {
